@@ -45,17 +45,27 @@ type ctl struct {
 	hold      chan struct{}
 	accepted  map[int]bool
 	deadlines int
+	armed     bool // SetDeadline was called since Accept last returned
+	stale     int  // Accept entered although a deadline was in use and has not been re-armed since the previous return
 }
 
 func newCtl() *ctl {
 	return &ctl{closedCh: make(chan struct{}), queue: make(chan ev, 256), entered: make(chan struct{}, 256), accepted: map[int]bool{}}
 }
 
-func (l *ctl) Accept() (net.Conn, error) {
+func (l *ctl) Accept() (c net.Conn, err error) {
 	l.entered <- struct{}{}
 	l.mu.Lock()
 	g := l.gate
+	if l.deadlines > 0 && !l.armed {
+		l.stale++
+	}
 	l.mu.Unlock()
+	defer func() {
+		l.mu.Lock()
+		l.armed = false
+		l.mu.Unlock()
+	}()
 	if g != nil {
 		<-g
 	}
@@ -105,6 +115,7 @@ func (l *ctl) SetDeadline(t time.Time) error {
 		return closedErr{}
 	}
 	l.deadlines++
+	l.armed = true
 	return nil
 }
 
@@ -133,6 +144,7 @@ func runCase(n int, line string) (res string) {
 	svc, _ := varlink.NewService("v", "p", "1", "u")
 	ctx := context.Background()
 	var l *ctl
+	var ctls []*ctl
 	var done chan error
 	clients := map[int]net.Conn{}
 	nextID := 0
@@ -147,6 +159,7 @@ func runCase(n int, line string) (res string) {
 		switch f[0] {
 		case "bind":
 			l = newCtl()
+			ctls = append(ctls, l)
 			svc.VerifSetListener(l)
 			out = append(out, "ok")
 		case "realbind":
@@ -386,6 +399,16 @@ func runCase(n int, line string) (res string) {
 		case <-d2:
 		case <-time.After(time.Second):
 		}
+	}
+	stale := 0
+	for _, c := range ctls {
+		c.mu.Lock()
+		stale += c.stale
+		c.mu.Unlock()
+	}
+	if stale > 0 {
+		// mechanism observation: with a timeout in use, Accept was entered without a fresh deadline
+		out = append(out, fmt.Sprintf("STALE-DEADLINE=%d", stale))
 	}
 	return strings.Join(out, " ")
 }
